@@ -118,8 +118,11 @@ class CutFile:
         self.cuts = list(cuts)
         self.pos = 0
         self.log = []
+        self.limit = len(self.rest) + 16  # a consumer that never stops is cut off deterministically
 
     def read(self, n=-1):
+        if len(self.log) >= self.limit:
+            raise RuntimeError("runaway consumer: more reads than bytes")
         if n is None or n < 0:
             out, self.rest = self.rest, b""
         else:
@@ -205,7 +208,7 @@ def run_reads(case):
 
     content = content_of(case)
     f = CutFile(content, case["cuts"])
-    obs = {"kind": "reads"}
+    obs = {"kind": "reads", "cls": None, "alg": None}
     with observed() as rec:
         try:
             stream = get_hash_stream(f, case["name"])
@@ -589,8 +592,8 @@ def run(ctx):
     corpus = load_corpus()
 
     # ---- streams with explicit read sequences, the chunked driver
-    reads = [c for c in corpus if c["kind"] == "reads"] + gen_reads(ctx, ctx.n(70, 1500))
-    drives = [c for c in corpus if c["kind"] == "drive"] + gen_drive(ctx, ctx.n(70, 1500))
+    reads = [c for c in corpus if c["kind"] == "reads"] + gen_reads(ctx, ctx.n(70, 1000))
+    drives = [c for c in corpus if c["kind"] == "drive"] + gen_drive(ctx, ctx.n(70, 1000))
     items_r, items_d, digests_d = [], [], []
     for case in reads:
         obs = run_reads(case)
@@ -614,7 +617,7 @@ def run(ctx):
 
     # ---- hash_file on real files
     items_h = []
-    hf = [c for c in corpus if c["kind"] == "hashfile"] + gen_hashfile(ctx, ctx.n(30, 400))
+    hf = [c for c in corpus if c["kind"] == "hashfile"] + gen_hashfile(ctx, ctx.n(30, 300))
     for case in hf + big_cases(ctx):
         obs = run_hash_file(ctx, case)
         book(ctx, case, obs, avail)
@@ -638,16 +641,16 @@ def run(ctx):
         "reads", IMPORTS, "list N * list N * list N * list Z",
         "fun i => let '(name, content, cuts, ns) := i in "
         "VL [enc_sel name; enc_reads (reads (picks_dos2unix name) (init_stream content cuts) ns [])]",
-        items_r, shard=12)
+        items_r, shard=ctx.n(12, 25))
     ctx.correspond(
         "driver", IMPORTS, "list N * Z * list N * list N",
         "fun i => let '(name, chunk, content, cuts) := i in "
         "VL [enc_sel name; enc_drive (fobj_md5 name chunk content cuts)]",
-        items_d, shard=12)
+        items_d, shard=ctx.n(12, 25))
     avail_term = clist([cbytes(a) for a in avail])
     ctx.correspond(
         "hash_file", IMPORTS, "list N * list N",
-        f"fun i => enc_hash_file (hash_file {avail_term} (fst i) (snd i))", items_h, shard=8)
+        f"fun i => enc_hash_file (hash_file {avail_term} (fst i) (snd i))", items_h, shard=ctx.n(8, 20))
 
     # ---- translation validation of the generated pure functions on dense enumerations
     blocks = istext_blocks(ctx)
